@@ -170,6 +170,10 @@ def c17(replay_case=None):
 
         return props_lr.run("C17", select=lambda c: True, clause_ok=lambda cl, c: cl.startswith("C04:"), nontrivial=lambda c: True,
                             rule="replay", assumptions=[], replay_case=replay_case)
+    if replay_case is None:
+        from . import stage_lr
+
+        stage_lr.ensure(tier(), seed())     # built before the GLR stage is loaded (memory, see stage.ensure)
     return run(
         "C17",
         select=lambda c: not c["consume"],
